@@ -127,3 +127,56 @@ Theorem C18_stalled_never_closed : forall p o f es st,
   stalled p o f st -> Forall (silent_ev f) es -> In f (chan_fds (run p st es)).
 Proof. exact stalled_never_closed. Qed.
 Print Assumptions C18_stalled_never_closed.
+
+(* ------------------------------------------------------------------------- *)
+(* The I/O loop bodies (wasyncore.poll: select; wasyncore.poll2 + readwrite:
+   select.poll), per object and turn, over the terms regenerated from the
+   source (Proof/ServerLoop.v).  Cited by C06 / C11. *)
+From WV Require Import Proof.ServerLoop.
+
+Theorem C18_loop_generated :
+  (forall in_r in_w in_e, gen_poll_dispatch in_r in_w in_e = (in_r, in_w, in_e)) /\
+  (forall r w a, gen_poll_e r w a = (r || w)) /\
+  (forall r w a, gen_poll2_reg r w a = (mkPF r r (w && negb a) false false false, r || (w && negb a))) /\
+  (forall i p o e h n, gen_readwrite i p o e h n = (i, o, p, e || h || n)) /\
+  gen_poll2_dispatches_readwrite = true.
+Proof.
+  exact (conj gen_poll_dispatch_spec (conj gen_poll_e_spec (conj gen_poll2_reg_spec (conj gen_readwrite_spec gen_poll2_dispatch_spec)))).
+Qed.
+Print Assumptions C18_loop_generated.
+
+Theorem C18_select_loop_dispatch : forall r w a ret_r ret_w ret_e,
+  select_returns (gen_poll_r r w a) (gen_poll_w r w a) (gen_poll_e r w a) ret_r ret_w ret_e ->
+  (sel_read (select_turn ret_r ret_w ret_e) = true -> r = true) /\
+  (sel_write (select_turn ret_r ret_w ret_e) = true -> w = true /\ a = false) /\
+  (sel_expt (select_turn ret_r ret_w ret_e) = true -> r = true \/ w = true).
+Proof. exact select_loop_dispatch. Qed.
+Print Assumptions C18_select_loop_dispatch.
+
+Theorem C18_poll2_loop_dispatch : forall r w a rv,
+  poll_returns (gen_poll2_reg r w a) rv ->
+  (p2_read (poll2_turn rv) = true -> r = true) /\
+  (p2_write (poll2_turn rv) = true -> w = true /\ a = false) /\
+  (p2_expt (poll2_turn rv) = true -> r = true) /\
+  p2_close (poll2_turn rv) = (pf_err rv || pf_hup rv || pf_nval rv) /\
+  (r = true \/ (w = true /\ a = false)).
+Proof. exact poll2_loop_dispatch. Qed.
+Print Assumptions C18_poll2_loop_dispatch.
+
+Theorem C18_loop_read_only_if_readable :
+  (forall r w a ret_r ret_w ret_e,
+     select_returns (gen_poll_r r w a) (gen_poll_w r w a) (gen_poll_e r w a) ret_r ret_w ret_e ->
+     sel_read (select_turn ret_r ret_w ret_e) = true -> r = true) /\
+  (forall r w a rv,
+     poll_returns (gen_poll2_reg r w a) rv -> p2_read (poll2_turn rv) = true -> r = true).
+Proof. exact loop_read_only_if_readable. Qed.
+Print Assumptions C18_loop_read_only_if_readable.
+
+Theorem C18_loop_write_only_if_writable :
+  (forall r w a ret_r ret_w ret_e,
+     select_returns (gen_poll_r r w a) (gen_poll_w r w a) (gen_poll_e r w a) ret_r ret_w ret_e ->
+     sel_write (select_turn ret_r ret_w ret_e) = true -> w = true /\ a = false) /\
+  (forall r w a rv,
+     poll_returns (gen_poll2_reg r w a) rv -> p2_write (poll2_turn rv) = true -> w = true /\ a = false).
+Proof. exact loop_write_only_if_writable. Qed.
+Print Assumptions C18_loop_write_only_if_writable.
